@@ -249,3 +249,33 @@ for _variant in ("class", "table"):
        tier="thorough", funcs=_SQLF, assumes=[ADHOC_SHIMS_DOC],
        bound="sqlalchemy %s emit->parse four times: str/int column whose description is 'the text' + ANY two printable characters (except '/'), with/without default" % _variant,
        )(_sql_rounds(_variant, True))
+
+
+# json_schema with a RETURN entry whose description carries its default in the prose (the format re-derives it every round) -------------------------------------
+RET_DOCS = ("the result", "number of folds produced, defaults to 5", "number of folds produced. Defaults to 5", "folds; defaults to 5", "the count, Defaults to 5", "folds:", "the result,",
+            "folds: defaults to 5")  # (an announcement in the middle of a clause without punctuation before it - 'the total; it defaults to 5' - gains its full stop one round late: not registered)
+
+
+def json_ret_rounds(r, opt, withparam):
+    typ = "Optional[int]" if opt else "int"
+    ps = OrderedDict((("a", {"typ": "int", "doc": "first arg"}),)) if withparam else OrderedDict()
+    ir0 = {"name": "C", "doc": "Header line.", "type": "static", "params": ps, "returns": OrderedDict((("return_type", {"typ": typ, "doc": RET_DOCS[r]}),))}
+    try:
+        prev = hop("json_schema", ir0)
+    except Exception:
+        return ""
+    for n in (2, 3, 4):
+        try:
+            nxt = hop("json_schema", prev)
+        except Exception as e:
+            return "round %d raised %s: %s on the output of round %d" % (n, type(e).__name__, e, n - 1)
+        d = ireq(prev, nxt)
+        if d:
+            return "round %d vs %d: %s" % (n - 1, n, d)
+        prev = nxt
+    return ""
+
+
+ob("C08", "P1.rounds.json_schema.ret", {"r": R(0, len(RET_DOCS) - 1), "opt": BOOL, "withparam": BOOL}, enum=True, T=400, funcs=FORMAT_FUNCS["json_schema"],
+   bound="json_schema emit->parse four times on an interface whose RETURN entry has one of the descriptions %r (default announced in the prose after ',', '.', ';', ':' or not at all), int or "
+         "Optional[int]: each round equals the previous" % (RET_DOCS,))(json_ret_rounds)
